@@ -1,8 +1,28 @@
-(* C01 -- placeholder until Proofs/WriterProofs.v is in place. *)
-From Coq Require Import ZArith List.
-From DRF Require Import Model.WriterCore.
+(* C01 -- RF write/read round-trip fidelity: the writer half.
+   (The reader half -- read = maximal runs of the stored map -- is Properties/C08.v.) *)
+From Coq Require Import ZArith List Bool.
+From DRF Require Import Model.WriterCore Proofs.WriterInv.
+Import ListNotations.
 Local Open Scope Z_scope.
 
-Theorem C01_initial_partial : forall k, files_lookup (w_files init_state) k = None.
-Proof. intros k. reflexivity. Qed.
-Print Assumptions C01_initial_partial.
+(* After any history of single-block calls (rf_write, digital_rf_write_hdf5) in chunked mode, the
+   files on disk denote exactly the Spec map: every accepted sample at its absolute index with its
+   value, nothing else; rejected calls contribute nothing; the cursor is the Spec cursor.
+   Calls may have any length, start anywhere at or after the cursor, and span any number of files. *)
+Theorem C01_writer_refines_single_chunked_partial : forall c ops, vcfg c -> c_chunk c = true ->
+  Forall (fun op => 0 <= fst op) ops ->
+  refines c (fold_left (model_step c) ops init_state) (fold_left (spec_step c) ops spec_init).
+Proof. exact writer_refines_single_chunked. Qed.
+Print Assumptions C01_writer_refines_single_chunked_partial.
+
+(* one call: accepted iff it starts at or after the cursor; then it returns 0 and stores exactly
+   its samples *)
+Theorem C01_one_call_chunked : forall c st g vec, vcfg c -> c_chunk c = true -> Inv c st -> 0 <= g ->
+  if g <? w_gi st then write_one c st g vec = (-3, st)
+  else exists st', write_one c st g vec = (0, st') /\ Inv c st' /\
+         w_gi st' = (if zlen vec =? 0 then w_gi st else g + zlen vec) /\
+         forall k, lookup_st st' k =
+           if (c_start c + g <=? k) && (k <? c_start c + g + zlen vec)
+           then nth_error vec (Z.to_nat (k - c_start c - g)) else lookup_st st k.
+Proof. exact write_one_chunked. Qed.
+Print Assumptions C01_one_call_chunked.
